@@ -193,9 +193,12 @@ def make_distance_matrix_from_adjacency_matrix(AG):
         (Dense) distance matrix of the compact metric space
         representation of G based on its shortest path lengths.
     """
-    # Convert adjacency matrix to SciPy format if needed.
-    if not sps.issparse(AG) and not isinstance(AG, np.ndarray):
-        AG = np.asarray(AG)
+    # Convert adjacency matrix to a format SciPy's graph routines accept:
+    # CSR for any sparse format, a C-contiguous array for anything dense.
+    if sps.issparse(AG):
+        AG = AG.tocsr()
+    else:
+        AG = np.ascontiguousarray(AG)
 
     # Compile distance matrix of the graph based on its shortest path
     # lengths.
